@@ -10,6 +10,7 @@ MC_RetIntBool == {TInt, TBool}
 MC_RetOptInt == {TOpt(TInt)}
 MC_RetP == {TP}
 MC_RetOps == {TBool}
+MC_RetRet == {TInt, TP}
 
 (* Exprs(MaxDepth, t) for every root type; evaluated once (constant level).  Only meaningful
    for the exhaustive configurations (MaxDepth <= 1): deeper sets exceed TLC's set limits.   *)
